@@ -88,7 +88,8 @@ def _run(prog, tool, argv, mode, gen_outcome, t_outcomes, fmt, seed, has_generat
     log = []
     parser, t_parser = Parser("main parser", log), Parser("transformation parser", log)
     gen = Helper("G", log, gen_outcome)
-    args = types.SimpleNamespace(output="OUTFILE", output_format=fmt, verbose="VERBOSE", varnames="VARNAMES")
+    # the requested format differs from the effective one (as when the format is inferred from the name of the output file)
+    args = types.SimpleNamespace(output="OUTFILE", output_format="as-requested", verbose="VERBOSE", varnames="VARNAMES")
     if has_generator:
         args.generator = gen
     if seed is not None:
@@ -112,7 +113,7 @@ def _run(prog, tool, argv, mode, gen_outcome, t_outcomes, fmt, seed, has_generat
         "setup_command_line_parsers": (lambda *a: (parser, t_parser)) if tool == "cnfgen" else (lambda *a: parser),
         "parse_command_line": (lambda av, p_, tp=None: (args, t_args)) if tool == "cnfgen" else (lambda av, p_: args),
         "msg_prefix": lambda p_="": Prefix(log, p_),
-        "guess_output_format": lambda o, f_: f_,
+        "guess_output_format": lambda o, f_: fmt if (o, f_) == ("OUTFILE", "as-requested") else "guess_output_format called with other arguments",
         "build_latex_cmdline_description": lambda *a: "EXTRA",
         "CNF": "CNF-class", "OPB": "OPB-class",
     }
@@ -185,13 +186,13 @@ def semantic_cli(prog, tool):
             log2 = []
             parser, t_parser = Parser("main parser", log2), Parser("transformation parser", log2)
             gen = H("G", log2, "ok")
-            args = _t.SimpleNamespace(output="OUTFILE", output_format=fmt, verbose="VERBOSE", varnames="VARNAMES", generator=gen)
+            args = _t.SimpleNamespace(output="OUTFILE", output_format="as-requested", verbose="VERBOSE", varnames="VARNAMES", generator=gen)
             f = Folder(env={}, fuel=100000)
             f.globals = {
                 "sys": _t.SimpleNamespace(argv=["prog"]), "get_formula_helpers": lambda: "FH", "get_transformation_helpers": lambda: "TH",
                 "setup_command_line_parsers": (lambda *a: (parser, t_parser)) if tool == "cnfgen" else (lambda *a: parser),
                 "parse_command_line": (lambda av, p_, tp=None: (args, [])) if tool == "cnfgen" else (lambda av, p_: args),
-                "msg_prefix": lambda p_="": Prefix(log2, p_), "guess_output_format": lambda o, f_: f_,
+                "msg_prefix": lambda p_="": Prefix(log2, p_), "guess_output_format": lambda o, f_: fmt,
                 "build_latex_cmdline_description": lambda *a: "EXTRA", "CNF": "CNF-class", "OPB": "OPB-class"}
             what = "%s.cli(mode=%r), format %s" % (tool, mode, fmt)
             try:
